@@ -17,6 +17,8 @@ type loop struct {
 	parent  *loop
 	// per activation data
 	phiVals  map[*ssa.Phi]string
+	entryState *State // state in which the loop was entered (before the havoc)
+	entryPhis  map[*ssa.Phi]Val // values of the header phis on entry
 }
 
 type loopInfo struct {
@@ -189,6 +191,7 @@ func (fr *frame) enterLoop(lp *loop, edges []inEdge, label string) (string, *Sta
 	// entry state = merge of entry edges
 	reach, st := fr.mergeEdges(edges, label+"_entry")
 	reach = ft.define("reach_"+label, SBool, reach)
+	lp.entryState = st.clone()
 	invs := fr.loopInvariantsBound(lp)
 	// entry values of phis
 	entryVals := map[*ssa.Phi]Val{}
@@ -199,6 +202,7 @@ func (fr *frame) enterLoop(lp *loop, edges []inEdge, label string) (string, *Sta
 		}
 		entryVals[phi] = fr.phiValue(phi, edges)
 	}
+	lp.entryPhis = entryVals
 	// check invariants on entry
 	for _, inv := range invs {
 		for phi, v := range entryVals {
@@ -452,6 +456,9 @@ func (fr *frame) loopInvariantsBound(lp *loop) []boundInv {
 
 func (b boundInv) eval(fr *frame, st *State, lp *loop) (string, error) {
 	if b.owner == fr {
+		saved, savedPhis := fr.curLoopEntry, fr.curLoopEntryPhis
+		fr.curLoopEntry, fr.curLoopEntryPhis = lp.entryState, lp.entryPhis
+		defer func() { fr.curLoopEntry, fr.curLoopEntryPhis = saved, savedPhis }()
 		return fr.evalBool(b.E, st, fr.entry, lp.header)
 	}
 	// evaluated with the names of the supplying caller, in the current state
